@@ -32,7 +32,8 @@ def explore(res, tag, seed, n_progs, per_prog):
                   [{"A": c["exp"], "B": c["b"], "schedule": c["plan"], "A_observed": c["gaps"], "A_result": c["res"]}
                    for c in cases[:2]])
     key = lambda c: len(str(c["exp"])) + len(str(c["plan"]))  # noqa: E731
-    bad = sorted([c for c, k in zip(cases, codes) if k == 2] + [c for c in cases if not c["b_ok"]], key=key)
+    bad = sorted([c for c, k in zip(cases, codes) if k == 2] + [c for c in cases if not c["b_ok"]], key=key) + out.get("extra_bad", [])
+    res.add_cases(36, [])
     tie = sorted([c for c, k in zip(cases, codes) if k == 1], key=key)
     return bad, tie, None
 
